@@ -39,5 +39,11 @@ while True:
         break
 nets.append({"name": "F-diamonds", "V": list(range(8)), "jd": [list(j) for j in jd], "tops": tops,
              "target": R.make_target(rng, es, jd, tops, "random"), "g0": sorted([a, b, t, m] for a, b, t, m in es)})
+# networks of wedges (a -A- c -B- b): every centre is a corner with one edge of each of two topologies; holed targets
+for k, seed in enumerate((21, 22)):
+    r3 = random.Random(seed)
+    es, jd, tops = R.clean_network(r3, 9, ["w"], 1.0)
+    nets.append({"name": "G-wedges-%d" % k, "V": list(range(9)), "jd": [list(j) for j in jd], "tops": tops,
+                 "target": R.make_target(r3, es, jd, tops, "holes"), "g0": sorted([a, b, t, m] for a, b, t, m in es)})
 json.dump(nets, open(os.path.join(os.path.dirname(os.path.dirname(os.path.abspath(__file__))), "spec", "rewiring_nets.json"), "w"))
 print(len(nets), "nets written")
